@@ -11,6 +11,7 @@ import (
 	"fmt"
 	"go/token"
 	"sort"
+	"strings"
 
 	"golang.org/x/tools/go/ssa"
 )
@@ -92,6 +93,13 @@ func lockBalanceRule(r *Run, rule string) {
 		r.Ok(rule, "plush", "no lock is taken on the way of Parse", "-", "nothing to give back")
 		return
 	}
+	lockPaths(r, rule, fns, lockOp, nil)
+}
+
+// lockPaths: the path part of the lock rules. nested (optional): for a call on the path, the keys of the mutexes the
+// callee locks itself (on its own receiver), as seen from the caller.
+func lockPaths(r *Run, rule string, fns []*ssa.Function, lockOp func(c *ssa.CallCommon) (string, ssa.Value), nested func(p *pwPath, c *ssa.Call, key func(*pwPath, ssa.Value, int) string) []string) {
+	w := r.W
 	for _, fn := range fns {
 		pw := &pathWalker{unroll1: true, maxPaths: 20000, maxDepth: 3, runDefers: true, inline: func(caller, callee *ssa.Function) bool { return false }}
 		pw.walk(fn)
@@ -133,6 +141,13 @@ func lockBalanceRule(r *Run, rule string) {
 				case *ssa.Call:
 					op, mu := lockOp(&x.Call)
 					if op == "" {
+						if nested != nil {
+							for _, k := range nested(p, x, key) {
+								if held[k] > 0 {
+									bad, badPos = fmt.Sprintf("%s is called while the mutex %s is held, and locks it again: sync mutexes are not re-entrant (a second read lock waits behind a writer that queued in between, and that writer waits for the first read lock)", calleeLabel(x), k), x.Pos()
+								}
+							}
+						}
 						continue
 					}
 					k := key(p, mu, 0)
@@ -167,4 +182,133 @@ func lockBalanceRule(r *Run, rule string) {
 			r.Ok(rule, name, "every lock taken is given back at every exit", w.Pos(fn.Pos()), fmt.Sprintf("%d path(s): locks and unlocks (deferred ones counted at the exit) balance", len(pw.paths)))
 		}
 	}
+}
+
+// nestedLocksRule (C14.R8): no function of the evaluator package calls, while it holds a mutex, a method that locks
+// the same mutex again (Has under the read lock calling Value, which takes the read lock of the same context), and
+// every lock taken is given back at every exit.
+func nestedLocksRule(r *Run, rule string) {
+	w := r.W
+	w.SSA()
+	pkg := w.SSAPkg("")
+	if pkg == nil {
+		r.Lost(rule, "root package")
+		return
+	}
+	lockOp := func(c *ssa.CallCommon) (op string, mu ssa.Value) {
+		g := c.StaticCallee()
+		if g == nil || g.Pkg == nil || g.Pkg.Pkg.Path() != "sync" || len(c.Args) == 0 {
+			return "", nil
+		}
+		switch g.Name() {
+		case "Lock", "RLock":
+			return "lock", c.Args[0]
+		case "Unlock", "RUnlock":
+			return "unlock", c.Args[0]
+		}
+		return "", nil
+	}
+	// per method: the mutexes of its own receiver it locks (directly, or through a method it calls on the same receiver)
+	const hole = "\x00"
+	var skey func(v ssa.Value, recv ssa.Value, d int) string
+	skey = func(v ssa.Value, recv ssa.Value, d int) string {
+		if v == recv {
+			return hole
+		}
+		if d > 6 {
+			return ""
+		}
+		switch x := v.(type) {
+		case *ssa.UnOp:
+			if x.Op == token.MUL {
+				if k := skey(x.X, recv, d+1); k != "" {
+					return "*" + k
+				}
+			}
+		case *ssa.FieldAddr:
+			if k := skey(x.X, recv, d+1); k != "" {
+				return fmt.Sprintf("%s.%d", k, x.Field)
+			}
+		}
+		return ""
+	}
+	own := map[*ssa.Function][]string{}
+	all := functionsOf(pkg)
+	for round := 0; round < 4; round++ {
+		grew := false
+		for _, g := range all {
+			if g.Signature.Recv() == nil || len(g.Params) == 0 {
+				continue
+			}
+			recv := ssa.Value(g.Params[0])
+			have := map[string]bool{}
+			for _, k := range own[g] {
+				have[k] = true
+			}
+			for _, b := range g.Blocks {
+				for _, ins := range b.Instrs {
+					c, ok := ins.(*ssa.Call)
+					if !ok {
+						continue
+					}
+					if op, mu := lockOp(&c.Call); op == "lock" {
+						if k := skey(mu, recv, 0); k != "" && !have[k] {
+							have[k] = true
+							own[g] = append(own[g], k)
+							grew = true
+						}
+						continue
+					}
+					if h := c.Call.StaticCallee(); h != nil && len(own[h]) > 0 && len(c.Call.Args) > 0 && c.Call.Args[0] == recv {
+						for _, k := range own[h] {
+							if !have[k] {
+								have[k] = true
+								own[g] = append(own[g], k)
+								grew = true
+							}
+						}
+					}
+				}
+			}
+		}
+		if !grew {
+			break
+		}
+	}
+	var fns []*ssa.Function
+	for _, fn := range all {
+		if fn.Parent() != nil {
+			continue
+		}
+		takes := false
+		for _, b := range fn.Blocks {
+			for _, ins := range b.Instrs {
+				if ci, ok := ins.(ssa.CallInstruction); ok {
+					if op, _ := lockOp(ci.Common()); op == "lock" {
+						takes = true
+					}
+				}
+			}
+		}
+		if takes {
+			fns = append(fns, fn)
+		}
+	}
+	sort.Slice(fns, func(i, j int) bool { return ssaName(fns[i]) < ssaName(fns[j]) })
+	if len(fns) == 0 {
+		r.Lost(rule, "functions of the evaluator package that take a lock")
+		return
+	}
+	lockPaths(r, rule, fns, lockOp, func(p *pwPath, c *ssa.Call, key func(*pwPath, ssa.Value, int) string) []string {
+		h := c.Call.StaticCallee()
+		if h == nil || len(own[h]) == 0 || len(c.Call.Args) == 0 {
+			return nil
+		}
+		base := key(p, c.Call.Args[0], 0)
+		var out []string
+		for _, k := range own[h] {
+			out = append(out, strings.Replace(k, hole, base, 1))
+		}
+		return out
+	})
 }
